@@ -149,8 +149,33 @@ def register(reg):
         )},
         props=['C12', 'C11'])
 
+    register_cache(reg)
     reg.contract(M + '.root', params={'hashes': LV, 'length': Opt(Int)},
                  raises={'ValueError': ['len(hashes) == 0 or (not is_none(length) and length < clog2(len(hashes)))']},
                  ensures=[('nonempty', 'len(hashes) >= 1'),
                           ('root', 'result == mroot(hashes, ite(is_none(length), clog2(len(hashes)), length))')],
                  returns=Val, props=['C12', 'C11'])
+
+
+MC = 'electrumx/lib/merkle.py:MerkleCache'
+
+
+def register_cache(reg):
+    Val = reg.kinds['Val']
+    Opaque = reg.usort('Opaque')
+    reg.cls(MC, fields={'merkle': Obj(M), 'length': Int, 'level': List(Val), 'depth_higher': Int, 'initialized': Opaque},
+            inv=[('shape', 'self.length >= 0 and self.depth_higher >= 0')])
+    reg.inline.add(MC + '._leaf_start')
+    reg.inline.add(MC + '._segment_length')
+    # truncate: argument errors exactly as coded; never extends; covers no more than `length` hashes afterwards
+    reg.contract(MC + '.truncate', params={'length': Int},
+                 raises={'ValueError': ['old(length) <= 0']},
+                 modifies=['self.length', 'self.level'],
+                 ensures=[('positive', 'old(length) > 0'),
+                          ('noop-if-not-shorter', 'implies(old(length) >= old(self.length), self.length == old(self.length) and '
+                                                  'len(self.level) == len(old(self.level)))'),
+                          ('aligned-down', 'implies(old(length) < old(self.length), self.length == '
+                                           'div(old(length), pow2(self.depth_higher)) * pow2(self.depth_higher) and '
+                                           'len(self.level) <= len(old(self.level)))'),
+                          ('prefix-kept', 'forall(lambda j=Int: implies(0 <= j and j < len(self.level), self.level[j] == old(self.level)[j]))')],
+                 props=['C12', 'C11', 'C03'])
